@@ -128,6 +128,25 @@ CHECKS.update({
         ref='6/C16'),
 })
 
+CHECKS.update({
+    'C13': dict(
+        text='Par.tla models the two nested indexed parallel collects on a work-stealing pool and TLC checks OrderPreserved over every '
+             'interleaving (the completion-order variant violates it); DumpDir.tla checks that pre-existing folder content cannot change '
+             'the result. Real runs over thread counts 1..64 x seeded jitter x repetition must give byte-identical csvdump/opreturn output '
+             '(equal to the reference), identical stats and row sets; recorded evaluation orders are validated against Par.tla and '
+             'counted; dump-folder pre-states, blk/xor checksums and the index key/value content are compared across consecutive runs.',
+        tech='TLA+ Par.tla/DumpDir.tla + TLC, metamorphic runs over schedules, trace validation of evaluation orders',
+        ref='6/C13',
+        note='The real schedule space is sampled and counted, not enumerated; exhaustive only in Par.tla. ' + TB),
+    'C14': dict(
+        text='Totality of classification/tokenisation over the script universe including every truncation form (Script.tla, TLC) and '
+             'content-independence of the decoder (Wire.tla); hostile strings are evaluated in-process under catch_unwind on 8 coins and '
+             'placed into scriptPubKey / scriptSig / witness items of real chains run through all 5 callbacks, whose complete output must '
+             'equal the reference model of that chain with exit status 0.',
+        tech='TLA+ Script.tla/Wire.tla + TLC, replay of hostile inputs in-process and end to end',
+        ref='6/C14'),
+})
+
 NOT_YET = 'check under construction in this session; will be claimed once its TLC model and conformance leg run green'
 
 
